@@ -352,6 +352,19 @@ impl<'a> Ctx<'a> {
         self.call_stack.borrow().find_name(name)
     }
 
+    /// The variable a name denotes, in lexical order: the function's own variables, then the variables it
+    /// captured, and only then the rest of the call stack -- a caller's local of the same name must not
+    /// stand in for a captured variable.
+    pub(crate) fn load_lexical(&self, name: &str) -> Option<PrimitiveFlagsPair> {
+        if let Ok(var) = self.load_local(name) {
+            Some(var)
+        } else if let Ok(var) = self.load_callback_variable(name) {
+            Some(var)
+        } else {
+            self.load_variable(name)
+        }
+    }
+
     pub(crate) fn load_self_export(&self, name: &str) -> Option<PrimitiveFlagsPair> {
         let file = self
             .function
